@@ -125,6 +125,10 @@ def main():
   os.makedirs(dst, exist_ok=True)
   open(os.path.join(dst, 'patch.diff'), 'w').write(kept_patch)
   shutil.copy(demo, os.path.join(dst, 'demo.py'))
+  if '--no-eval' in sys.argv:
+    json.dump(meta, open(os.path.join(dst, 'meta.json'), 'w'), indent=1)
+    print('ACCEPTED %s (property %s); not evaluated (run tools/seed_matrix.py)' % (sid, prop))
+    return 0
   ev = sh([PY, os.path.join(VERIF, 'tools', 'seed_eval.py'), os.path.join(dst, 'patch.diff')], timeout=3000)
   print(ev.stdout[-1500:])
   caught = [l.split(':', 1)[1].strip() for l in ev.stdout.splitlines() if l.startswith('CAUGHT-BY:')]
